@@ -61,6 +61,10 @@ def main():
     log = {"property": prop, "index": n, "repo_head": head, "ran": []}
 
     rc, out = sh("git apply --check %s && git apply %s" % (patch, patch), cwd=wt)
+    if rc != 0:
+        # written against an earlier HEAD (a hook commit since): three-way merge through the blobs it names
+        rc, out = sh("git apply -3 %s && git reset -q" % patch, cwd=wt)
+        log["patch_applied_by_three_way_merge"] = rc == 0
     log["patch_applies"] = rc == 0
     if rc != 0:
         print("PATCH DOES NOT APPLY\n" + out)
@@ -142,7 +146,7 @@ def main():
         out = re.sub(r"replay=\S*/replays/", "replay=replays/", out)
         results[c] = {"detected": "VIOLATION property=" in out, "tier": tier, "wall_s": round(time.time() - t, 1), "output": out[:1200]}
     log["checks_on_patched_tree"] = results
-    sh("git apply -R %s" % patch, cwd=wt)
+    sh("git checkout -q -- . ; git clean -fdq -e target -e target-hooks", cwd=wt)
     ok_without, txt_without = run_demo()
     log["demo_without_change"] = {"passes": ok_without, "output": txt_without}
     sh("git checkout -q -- . ; git clean -fdq -e target -e target-hooks", cwd=wt)
